@@ -104,6 +104,40 @@ def depressedRoot (p q : α) (k : Nat) : α :=
 def calcCubicRoot (a b c : α) (k : Nat) : α :=
   depressedRoot (depP a b) (depQ a b c) k - a / 3.0
 
+/-! ### `calc_cubic_root` as the code runs it: whole arrays, boolean masks
+
+  `mask = det >= 0`, `sol[mask] = cbrt(t1) + cbrt(t2)` computed from `det[mask]`, `q[mask]`,
+  `sol[~mask] = …` computed from `p[~mask]`, `q[~mask]`, finally `sol - a / 3`.
+  `gather`/`scatter` are NumPy's boolean-mask read and write. -/
+
+/-- `xs[mask]` -/
+def gather {β : Type} : List Bool → List β → List β
+  | true :: m, x :: xs => x :: gather m xs
+  | false :: m, _ :: xs => gather m xs
+  | _, _ => []
+
+/-- `sol[mask] = vals`: the positions where the mask is set take the values in order -/
+def scatter {β : Type} : List Bool → List β → List β → List β
+  | true :: m, v :: vals, _ :: sol => v :: scatter m vals sol
+  | false :: m, vals, s :: sol => s :: scatter m vals sol
+  | _, _, sol => sol
+
+def zipWith3' {β γ δ ε : Type} (f : β → γ → δ → ε) : List β → List γ → List δ → List ε
+  | x :: xs, y :: ys, z :: zs => f x y z :: zipWith3' f xs ys zs
+  | _, _, _ => []
+
+/-- `calc_cubic_root(a, b, c, selected_root)` on arrays of equal length -/
+def calcCubicRootVec (as bs cs : List α) (k : Nat) : List α :=
+  let p := List.zipWith depP as bs
+  let q := zipWith3' depQ as bs cs
+  let det := List.zipWith disc p q
+  let sol : List α := det.map fun _ => 0.0
+  let mask := det.map fun d => le 0.0 d
+  let sol := scatter mask (List.zipWith cardano (gather mask q) (gather mask det)) sol
+  let nmask := mask.map not
+  let sol := scatter nmask (List.zipWith (fun p q => trigRoot p q k) (gather nmask p) (gather nmask q)) sol
+  List.zipWith (fun s a => s - a / 3.0) sol as
+
 /-! ### cubic coefficients of the analytically inverted models -/
 
 /-- `ewlc_odijk_force`: `alpha = d/Lc - 1, gamma = kT/Lp` -/
@@ -361,6 +395,20 @@ def spec (S : Solver α) (env : String → α) : M α → α → α
   | off m, x => m.spec S env (x - env m.offsetName)
   | inv m lo hi interp, x => S interp (fun f => m.spec S env f) lo hi x
 
+/-- the validation written by NAME: every part is checked on its own parameters, left part first; an inverse
+    then checks its limits -/
+def checkSpec (env : String → α) : M α → Option Err
+  | base k n => k.check ((k.args.map (formatName n)).map env)
+  | add l r =>
+      match l.checkSpec env with
+      | some e => some e
+      | none => r.checkSpec env
+  | off m => m.checkSpec env
+  | inv m lo hi _ =>
+      match m.checkSpec env with
+      | some e => some e
+      | none => limitsEmpty lo hi
+
 def branches : M α → α → List α → List Bool
   | base k _, x, v => k.branch x v
   | add l r, x, v =>
@@ -596,6 +644,18 @@ def handle : List String → Option String
         let r : EF := calcCubicRoot (EF.ofFloat a) (EF.ofFloat b) (EF.ofFloat c) k
         let det : Float := disc (depP a b) (depQ a b c)
         some (showFloat r.v ++ ":" ++ showFloat r.e ++ ":" ++ (if (0.0 : Float) ≤ det then "C" else "T"))
+  | ["c12.cubicvec", as, bs, cs, k] => do
+      -- the masked array algorithm at `Float`; the error bound next to each value is the scalar one
+      let as ← floatList? as; let bs ← floatList? bs; let cs ← floatList? cs; let k ← nat? k
+      if as.length != bs.length || as.length != cs.length then none
+      else if k > 2 then some "RuntimeError"
+      else
+        let vs := calcCubicRootVec as bs cs k
+        let es := zipWith3' (fun a b c =>
+          let r : EF := calcCubicRoot (EF.ofFloat a) (EF.ofFloat b) (EF.ofFloat c) k
+          let det : Float := disc (depP a b) (depQ a b c)
+          (r.e, if (0.0 : Float) ≤ det then "C" else "T")) as bs cs
+        some (showList (fun (v, e, br) => showFloat v ++ ":" ++ showFloat e ++ ":" ++ br) (vs.zip es))
   | ["c12.dna", kbp, um, t] => do
       let kbp ← float? kbp; let um ← float? um; let t ← float? t
       some (showFloatList [dnaLc kbp um, dnaKT t])
